@@ -79,11 +79,19 @@ def roles(model):
             both = {b for b in both if sums_children(b)}
         if len(both) == 1:
             r["CHILD_I"] = both.pop()
-    need = ["PARENTS", "CHILDS", "TOPO", "PHLK", "SOLVER", "FWD", "BACK", "CHILD_I", "REL_UPDATE", "SET_PHLK"]
-    miss = [k for k in need if k not in r]
-    if miss:
-        raise AnalysisError("role anchors not found: %s" % ", ".join(miss))
-    return r
+    return Roles(r)
+
+
+class Roles(dict):
+    """role -> carrier; a role that could not be resolved is an analysis error for the rule that asks for it (and only for that rule:
+    a rule about the TOML loader does not depend on the solver loop being readable)"""
+    NEED = ["PARENTS", "CHILDS", "TOPO", "PHLK", "SOLVER", "FWD", "BACK", "CHILD_I", "REL_UPDATE", "SET_PHLK"]
+
+    def __missing__(self, k):
+        raise AnalysisError("role anchor not found: %s" % k)
+
+    def __deepcopy__(self, memo):
+        return Roles(dict(self))
 
 
 # ------------------------------------------------------------------------------------------------ hooks
